@@ -6,7 +6,7 @@
  R15.4 the rename handler builds its edits from the definition and *all* its usages and from nothing else
 """
 from . import lib
-from .c16 import r161, r162, r163
+from .c16 import r161, r162, r163, r166
 
 
 def rename_bodies(fx):
@@ -281,5 +281,6 @@ def run(ctx):
     r161(ctx, fx, "R15.1")
     r162(ctx, fx, cg, "R15.2")
     r163(ctx, fx, "R15.3")
+    r166(ctx, fx, "R15.9")
     r154(ctx, fx)
     ctx.not_decided("that the renamed project assembles to identical bytes; that renaming back restores the text; behaviour on shadowed names on concrete programs")
